@@ -91,6 +91,12 @@ def inject(doc, f):
         elif x == "enum":
             nb = {"t": "type", "name": "@zu", "annot": "", "body": {"k": "obj", "n": "", "props": [{"key": "e", "vk": "enum", "vn": "@noenum"}], "allOf": []}}
         elif x == "tag":
+            # preferably on a method inside a URL block that has URL-level Tags of its own (the method's list wins
+            # and must be validated all the same)
+            for bi, ub in enumerate(d):
+                if ub["t"] == "url" and ub["tags"] and ub["methods"]:
+                    ub["methods"][0]["tags"] = ["@notag"]
+                    return d, [bi + 1], None
             m = simple_method("GET", ["zu"])
             m["tags"] = ["@notag"]
             nb = {"t": "method", "m": m}
